@@ -303,7 +303,8 @@ fn position_part(ctx: &mut Ctx) {
                     // --set macro (and a second --select): same values
                     {
                         let mut extra = pre.clone();
-                        extra.push(format!("--set=@pos={etext}"));
+                        // every second expression with a blank between the `=` of --set and the expression
+                        extra.push(if etext.len() % 2 == 0 { format!("--set=@pos= {etext}") } else { format!("--set=@pos={etext}") });
                         extra.push("--select=@pos=v".into());
                         extra.push(format!("--select={etext}=v2"));
                         let (c, got) = run_pos(ctx, extra);
@@ -350,7 +351,7 @@ fn position_part(ctx: &mut Ctx) {
         let sel_case = Case::owned(vec![format!("--select={e}=v")], b"null\n".to_vec());
         let sel = ctx.run(&sel_case);
         let v = json::parse_rows(&sel.stdout, b"\n").ok().and_then(|r| r.first().and_then(|x| x.get("v").cloned()));
-        let var_case = Case::owned(vec![format!("--set=pos={e}"), "--select=:pos=v".into()], b"null\n".to_vec());
+        let var_case = Case::owned(vec![if e.len() % 2 == 0 { format!("--set=pos= {e}") } else { format!("--set=pos={e}") }, "--select=:pos=v".into()], b"null\n".to_vec());
         let var = ctx.run(&var_case);
         ctx.case_done();
         ctx.trace_validated();
